@@ -1,20 +1,22 @@
 /-
 C12 proofs, part 5e: all covered stack/heap instructions together.
 -/
-import NeoModel.Proofs.VmAcctExecC
+import NeoModel.Proofs.VmAcctExecH
 namespace NeoModel.VmAcct
 
-/-- the stack/heap instructions covered by the invariant proofs (PACKMAP, UNPACK, KEYS, VALUES,
-CONVERT are modelled and tied, not proved) -/
+/-- the stack/heap instructions covered by the invariant proofs: all of them (kept as a predicate so
+that an instruction added to the model is not silently claimed) -/
 def SOp.core : SOp → Bool
-  | .packmap _ _ | .unpack | .keys | .values | .convert _ => false
   | _ => true
 
-/-- side conditions of APPEND / SETITEM: no struct is cloned, map keys are primitives -/
+/-- side conditions: map keys are primitives and a map's children come in pairs (the real VM faults
+on any other key: validateMapKey) -/
 def SOp.okFor (op : SOp) (w : W) : Prop :=
   match op with
-  | .append => ∀ id, w.st.head? ≠ some (.str id)
-  | .setitem _ => (∀ id, w.st.head? ≠ some (.str id)) ∧ (∀ a k id r, w.st = a :: k :: .map id :: r → k = .prim)
+  | .setitem _ => ∀ a k id r, w.st = a :: k :: .map id :: r → k = .prim
+  | .keys => ∀ id r, w.st = .map id :: r → ∀ x ∈ evens (chOf w.c.heap id), x.cid = none
+  | .packmap k _ => ∀ x ∈ pairKeys k (w.st.drop 1), x.cid = none
+  | .values => ∀ id r, w.st = .map id :: r → (chOf w.c.heap id).length % 2 = 0 ∧ ∀ x ∈ evens (chOf w.c.heap id), x.cid = none
   | _ => True
 
 theorem execS_throw (op : SOp) (w w' : W) (h : execS op w = some (.throw w')) :
@@ -37,7 +39,7 @@ theorem execS_inv {rest : Nat → Nat} {n : Nat} (op : SOp) (hc : op.core = true
   cases out with
   | throw w' =>
     rcases execS_throw op w w' h with ⟨i, rfl⟩ | ⟨i, rfl⟩
-    · exact setitem_inv i inv hok.1 hok.2 _ h
+    · exact setitem_inv' i inv hok _ h
     · exact post_of_inv (pickitem_inv i inv _ h)
   | ok w' =>
     cases op with
@@ -56,17 +58,17 @@ theorem execS_inv {rest : Nat → Nat} {n : Nat} (op : SOp) (hc : op.core = true
     | newEmpty k => exact post_of_inv (newEmpty_inv k inv h)
     | newSized k m => exact post_of_inv (newSized_inv k m inv h)
     | pack k m => exact post_of_inv (pack_inv k m inv h)
-    | packmap _ _ => cases hc
-    | unpack => cases hc
-    | append => exact post_of_inv (append_inv inv hok h)
-    | setitem i => exact setitem_inv i inv hok.1 hok.2 _ h
+    | packmap k dups => exact post_of_inv (packmap_inv k dups inv hok h)
+    | unpack => exact post_of_inv (unpack_inv inv h)
+    | append => exact post_of_inv (append_inv' inv h)
+    | setitem i => exact setitem_inv' i inv hok _ h
     | remove i => exact post_of_inv (remove_inv i inv h)
     | clearitems => exact post_of_inv (clearitems_inv inv h)
     | popitem => exact post_of_inv (popitem_inv inv h)
     | pickitem i => exact post_of_inv (pickitem_inv i inv _ h)
-    | keys => cases hc
-    | values => cases hc
-    | convert _ => cases hc
+    | keys => exact post_of_inv (keys_inv inv hok h)
+    | values => exact post_of_inv (values_inv' inv hok h)
+    | convert t => exact post_of_inv (convert_inv t inv h)
     | reverseitems => exact post_of_inv (reverseitems_inv inv h)
     | mkarray => exact post_of_inv (mkarray_inv inv h)
 
